@@ -341,7 +341,10 @@ func UpdateCheckpoint(outCli client.Redis, localCheckpoint string, ids []string)
 			return err
 		}
 
-		if len(oldId) > 0 && oldId != "?" {
+		// the entry read under the same key with the new id itself (an earlier attempt got as far as
+		// writing it) is the one just written again: there is nothing old to delete
+		rewritten := oldId == id1 && cpName == localCheckpoint
+		if len(oldId) > 0 && oldId != "?" && !rewritten {
 			// delete old checkpoint
 			err = DelCheckpoint(outCli, cpName, oldId)
 			if err != nil {
